@@ -62,8 +62,9 @@ def do_verify(name, tier, checks):
         # refresh the patch so that it applies cleanly to the current tree
         rc2, diff = sh(['diff', '-ruN', '-x', '__pycache__', '-x', '*.pyc', '-x', '*.orig', '-x', '*.rej',
                         '/repo/glom', os.path.join(repo, 'glom')])
-        diff = diff.replace('/repo/glom', 'a/glom').replace(os.path.join(repo, 'glom'), 'b/glom')
-        diff = re.sub(r'^diff -ruN .*$', lambda m: m.group(0).replace('-x __pycache__ -x *.pyc -x *.orig -x *.rej ', ''), diff, flags=re.M)
+        diff = diff.replace(os.path.join(repo, 'glom'), 'b/glom').replace('/repo/glom', 'a/glom')
+        diff = re.sub(r'^diff -ruN .*$', '', diff, flags=re.M)
+        diff = re.sub(r'^(--- a/\S+|\+\+\+ b/\S+)\t.*$', r'\1', diff, flags=re.M).lstrip('\n')
         open(os.path.join(d, 'patch.diff'), 'w').write(diff)
         rc, out = sh([PY, '-B', '-m', 'pytest', '-q', '-p', 'no:cacheprovider', '--deselect',
                       'glom/test/test_cli.py::test_main', 'glom/test'], cwd=repo)
